@@ -1,6 +1,6 @@
 #!/bin/bash
 # tools/seedrun.sh <seed-dir> <PROP> [tier]   run a check against a scratch copy of /repo's molgri with the seeded patch applied (development aid)
 S=$(readlink -f $1); P=$2; TIER=${3:-quick}
-D=$(mktemp -d /tmp/seedrun.XXXXXX); cp -r /repo/molgri $D/; (cd $D && git init -q . 2>/dev/null; git apply --unsafe-paths --directory=$D $S/patch.diff 2>/dev/null || patch -s -p1 -d $D < $S/patch.diff) || { echo "patch failed"; exit 3; }
+D=$(mktemp -d /tmp/seedrun.XXXXXX); git -C /repo archive HEAD molgri | tar -x -C $D; (cd $D && git init -q . 2>/dev/null; git apply --unsafe-paths --directory=$D $S/patch.diff 2>/dev/null || patch -s -p1 -d $D < $S/patch.diff) || { echo "patch failed"; exit 3; }
 cd /verif; VERIF_REPO=$D timeout ${MUT_TIMEOUT:-900} ./check $P --tier $TIER 2>&1 | grep -E "^\[|VIOLATION|HARNESS|INCONCL|  obligation" | head -${LINES_OUT:-6}; echo "exit=${PIPESTATUS[0]}"
 rm -rf $D
